@@ -8,6 +8,7 @@
 #include <dlfcn.h>
 #include <unistd.h>
 #include <vector>
+#include <fstream>
 extern "C" {
 uint8_t X_vp_nondet_u8(void); uint16_t X_vp_nondet_u16(void); uint32_t X_vp_nondet_u32(void); uint32_t X_vp_nondet_int(void);
 uint64_t X_vp_nondet_u64(void); float X_vp_nondet_float(void); double X_vp_nondet_double(void);
@@ -64,6 +65,8 @@ FILE* vp_fopen_read(void) { if (!g_written) commit(); return fopen(tmp_name(), "
 FILE* vp_fopen_write(void) { g_written = true; return fopen(tmp_name(), "wb"); }
 const char* vp_file_name(void) { if (!g_written) commit(); return tmp_name(); }
 int vp_file_is_open(void) { return 0; }
+static std::ifstream g_ifs;
+void* vp_istream(void) { if (!g_written) commit(); if (g_ifs.is_open()) g_ifs.close(); g_ifs.clear(); g_ifs.open(tmp_name(), std::ios::binary); return static_cast<std::istream*>(&g_ifs); }
 }
 int main(int argc, char** argv) {
     atexit(vp_cleanup);
